@@ -23,7 +23,18 @@ US = sh.US
 NOW_US = (18322 * 86400 + 30) * US
 GMT_POOL = (0, 480, -330, -720)      # minutes west of UTC as format_date's gmt_offset
 
+ZONE_POOL = (-300, 330)              # utcoffset minutes of the non-UTC aware input forms
 _BASE = tl.get("en_US")
+
+
+class _FixedZone(sh.tzinfo):
+    """tzinfo subclass (not datetime.timezone) with a fixed offset."""
+
+    def __init__(self, minutes):
+        self.minutes = minutes
+
+    def utcoffset(self, dt):
+        return sh.timedelta(minutes=self.minutes)
 
 
 # ------------------------------------------------------------------------------------------ numbers
@@ -124,8 +135,12 @@ def _format(off, us, relative, shorter, full_format, gi, form):
             date = sh.datetime(date_us, sh.ShimModule.timezone.utc)
         elif form == 1:
             date = sh.datetime(date_us, None)          # naive: documented as UTC
-        else:
+        elif form == 2:
             date = NOW_US // US + off                  # POSIX timestamp (int)
+        elif form == 3:                                # aware, UTC-05:00 (datetime.timezone)
+            date = sh.datetime(date_us, sh.timezone(sh.timedelta(minutes=ZONE_POOL[0])))
+        else:                                          # aware, UTC+05:30 (a tzinfo subclass)
+            date = sh.datetime(date_us, _FixedZone(ZONE_POOL[1]))
         g = GMT_POOL[0] if gi == 0 else GMT_POOL[1] if gi == 1 else GMT_POOL[2] if gi == 2 else GMT_POOL[3]
         out = _locale().format_date(date, gmt_offset=g, relative=relative, shorter=shorter,
                                     full_format=full_format)
@@ -191,9 +206,13 @@ def _check(out, elapsed):
 
 
 def pre_fd(off: int, relative: bool, shorter: bool, full_format: bool, gi: int, form: int) -> bool:
-    if not (-P.D * 86400 <= off <= P.D * 86400 and 0 <= gi < P.G and 0 <= form <= 2):
+    if not (-P.D * 86400 <= off <= P.D * 86400 and 0 <= gi < P.G and 0 <= form <= 4):
         return False
-    return in_shard(gi * 3 + form + (3 * P.G if off < 0 else 0))
+    if form >= 3 and gi >= P.ZG:
+        return False                      # the zone forms are combined with the first ZG gmt_offsets only
+    k = gi * 5 + form if gi < P.ZG else P.ZG * 5 + (gi - P.ZG) * 3 + form
+    total = P.ZG * 5 + (P.G - P.ZG) * 3
+    return in_shard(k + (total if off < 0 else 0))
 
 
 def classify_fd(off, relative, shorter, full_format, gi, form, us=0):
@@ -215,30 +234,36 @@ _FD_STUBS = [
     "now fixed at 2020-03-01T00:00:30Z; gmt_offset from the first G entries of the pool (0, 480, -330, -720)",
 ]
 _FD_OUT = ["content of the absolute format (names, clock time)", "non-English locales",
-           "offsets beyond +-D days", "float timestamps", "aware datetimes in zones other than UTC"]
+           "offsets beyond +-D days", "float timestamps", "zones other than UTC, -05:00, +05:30; DST transitions"]
 
 
 @harness(
     pre=pre_fd,
-    quick=dict(D=400, G=2, timeout=150, reach_timeout=150, per_path_timeout=40),
-    thorough=dict(D=4000, G=4, timeout=900, reach_timeout=150, per_path_timeout=60),
-    nshards=dict(quick=12, thorough=24),
+    quick=dict(D=400, G=2, ZG=1, timeout=150, reach_timeout=150, per_path_timeout=40),
+    thorough=dict(D=4000, G=4, ZG=4, timeout=900, reach_timeout=150, per_path_timeout=60),
+    nshards=dict(quick=16, thorough=40),
     reach=["future_gt_60", "seconds", "hours", "absolute_past"],
     units=_FD_UNITS, stubs=_FD_STUBS, outside=_FD_OUT + ["sub-second offsets (see h_format_date_subsec)"],
     classify=classify_fd,
 )
 def h_format_date(off: int, relative: bool, shorter: bool, full_format: bool, gi: int, form: int):
-    """date = now + off seconds (off symbolic, +-D days), all flag combinations, three input forms."""
+    """date = now + off seconds (off symbolic, +-D days), all flag combinations, five input forms: aware UTC,
+    naive, int timestamp, aware UTC-05:00 (timezone), aware UTC+05:30 (tzinfo subclass)."""
     if classify_fd(off, relative, shorter, full_format, gi, form) in P.exclude:
         return
     out, elapsed = _format(off, 0, relative, shorter, full_format, gi, form)
+    if form == 3 and 60 < off < 5 * 3600:
+        reached("future_in_west_zone")       # wall clock of the input is hours BEHIND now, instant is ahead
+    if form == 4 and -5 * 3600 < off < 0 and out.endswith(" ago"):
+        reached("past_in_east_zone")         # wall clock is ahead of now, instant is in the past
     _check(out, elapsed)
 
 
 def pre_fds(off: int, us: int, shorter: bool, gi: int, form: int) -> bool:
-    if not (-P.D * 86400 <= off <= P.D * 86400 and 0 <= us < US and 0 <= gi < P.G and 0 <= form <= 1):
+    if not (-P.D * 86400 <= off <= P.D * 86400 and 0 <= us < US and 0 <= gi < P.G and form in (0, 1, 3, 4)):
         return False
-    return in_shard(gi * 2 + form + (2 * P.G if off < 0 else 0))
+    fs = form if form < 2 else form - 1
+    return in_shard(gi * 4 + fs + (4 * P.G if off < 0 else 0))
 
 
 def classify_fds(off, us, shorter, gi, form):
@@ -249,10 +274,10 @@ def classify_fds(off, us, shorter, gi, form):
 
 @harness(
     pre=pre_fds,
-    quick=dict(D=3, G=1, timeout=150, reach_timeout=60, per_path_timeout=40),
+    quick=dict(D=3, G=1, timeout=150, reach_timeout=120, per_path_timeout=40),
     thorough=dict(D=400, G=4, timeout=900, reach_timeout=60, per_path_timeout=60),
-    nshards=dict(quick=4, thorough=16),
-    reach=["seconds", "minutes", "hours", "clamped_future"],
+    nshards=dict(quick=8, thorough=32),
+    reach=["seconds", "minutes", "hours", "clamped_future", "future_in_west_zone", "past_in_east_zone"],
     units=_FD_UNITS, stubs=_FD_STUBS, outside=_FD_OUT,
     classify=classify_fds,
 )
@@ -262,6 +287,10 @@ def h_format_date_subsec(off: int, us: int, shorter: bool, gi: int, form: int):
     if classify_fds(off, us, shorter, gi, form) in P.exclude:
         return
     out, elapsed = _format(off, us, True, shorter, False, gi, form)
+    if form == 3 and 60 < off < 5 * 3600:
+        reached("future_in_west_zone")       # wall clock of the input is hours BEHIND now, instant is ahead
+    if form == 4 and -5 * 3600 < off < 0 and out.endswith(" ago"):
+        reached("past_in_east_zone")         # wall clock is ahead of now, instant is in the past
     _check(out, elapsed)
 
 
@@ -303,6 +332,18 @@ def stub_validation(tier, seed):
                         k += 1
                         if got != want:
                             bad.append((off, relative, shorter, full, gi, want, got))
+                        for zone in ZONE_POOL:      # the same instant expressed in a non-UTC zone
+                            rdate = (now + real.timedelta(seconds=off)).astimezone(
+                                real.timezone(real.timedelta(minutes=zone)))
+                            tl.datetime = _Mod
+                            try:
+                                want = loc.format_date(rdate, GMT_POOL[gi], relative, shorter, full)
+                            finally:
+                                tl.datetime = real_dt
+                            got, _e = _format_exact(off, relative, shorter, full, gi, zone)
+                            k += 1
+                            if got != want:
+                                bad.append((off, relative, shorter, full, gi, zone, want, got))
     if bad:
         return dict(status="ERROR", message="stand-ins disagree with the real datetime: %r" % (bad[:3],))
     return dict(status="PROVED", obligations=1, discharged=1, queries=0, solver_s=0,
@@ -311,7 +352,7 @@ def stub_validation(tier, seed):
                 assumptions=["this entry validates the stubs (concrete sweep); it decides nothing about C46"])
 
 
-def _format_exact(off, relative, shorter, full, gi):
+def _format_exact(off, relative, shorter, full, gi, zone=None):
     """_format with real names and exact hour/minute (concrete inputs only)."""
     saved = (tl.datetime, tl.__dict__.get("round"), sh.datetime._now_us, sh.datetime._placeholder_tod)
     tl.datetime = sh.ShimModule
@@ -322,7 +363,8 @@ def _format_exact(off, relative, shorter, full, gi):
         loc = copy.copy(_BASE)
         real_translate = _BASE.translate
         loc.translate = lambda m, p=None, c=None: sh.FmtStr(real_translate(m, p, c))
-        date = sh.datetime(NOW_US + off * US, sh.ShimModule.timezone.utc)
+        tz = sh.timezone.utc if zone is None else _FixedZone(zone)
+        date = sh.datetime(NOW_US + off * US, tz)
         return loc.format_date(date, GMT_POOL[gi], relative, shorter, full), -off * US
     finally:
         tl.datetime = saved[0]
